@@ -384,6 +384,7 @@ def run(chk):
     c20_fd.run(chk, prog)
     _pending_rule(chk, prog)
     _loopdone_rule(chk, prog)
+    _threadjoin_rule(chk, prog)
 
 
 ACQUIRE = ("socket", "accept", "accept4", "open", "dup", "inotify_init1", "inotify_init", "epoll_create1", "timerfd_create",
@@ -641,3 +642,63 @@ def _loopdone_rule(chk, prog):
         chk.ok(rule, "janet_loop: while (!janet_loop_done())")
     else:
         chk.violation(rule, "ev.c", lp.name, "loop-condition", lp.loc, "janet_loop does not re-test janet_loop_done() as its loop condition")
+
+
+def _threadjoin_rule(chk, prog):
+    """An interrupting deadline (ev/deadline ... true) starts a joinable worker thread and keeps its handle in the timeout
+    entry.  A joinable thread that is never joined (or detached) keeps its stack for ever, so whoever takes such an entry
+    out of the timeout queue has to reap the worker - on every way an entry can leave the queue."""
+    rule = "C20-THREADJOIN"
+    chk.rule(rule, "a timeout entry that may carry a worker thread is joined or detached by whoever pops it from the timeout queue")
+    tu = prog.tus["ev.c"]
+    # premise: a worker handle is stored into a timeout entry somewhere
+    stores = [x for f in tu.funcs.values() for x in f.nodes if x.k == "asg" and x.kids[0].k == "mem" and x.kids[0].field == "worker"]
+    if not stores:
+        raise AnalysisBroken("no store of a worker thread handle into a timeout entry found")
+    n = 0
+    for fn in tu.funcs.values():
+        pops = [c for c in fn.calls("pop_timeout")]
+        peeks = [c for c in fn.calls("peek_timeout")]
+        if not pops or not peeks:
+            continue
+        chk.analysed(fn)
+
+        def transfer(st, x):
+            if x.k == "call" and x.callee == "peek_timeout":
+                return frozenset()
+            if x.k == "call" and x.callee == "pop_timeout":
+                return st | frozenset(["popped"])
+            if x.k == "call" and x.callee in ("pthread_join", "pthread_detach", "CloseHandle") and \
+                    any(y.k == "mem" and y.field == "worker" for a in x.args for y in a.walk()):
+                return st | frozenset(["reaped"])
+            return st
+
+        def edge(st, blk, succ, cond, truth):
+            c = flow.compare_of(cond, truth)
+            if c is None:
+                return st
+            l, op, r = strip_casts(c[0]), c[1], c[2]
+            if l.k == "mem" and (r is None or strip_casts(r).v == 0):
+                if l.field == "has_worker" and op == "==":
+                    return st | frozenset(["noworker"])
+                if l.field == "curr_fiber" and op == "==":
+                    return st | frozenset(["noworker"])      # plain timeouts (no guarded fiber) never have a worker
+            return st
+        IN, OUT, T = flow.forward_paths(fn, frozenset(), transfer, edge, cap=512)
+        bad = []
+        for x, S in flow.states_at(fn, IN, T):
+            if (x.k == "call" and x.callee == "peek_timeout") or x.k == "return":
+                for ps in S:
+                    if "popped" in ps and "reaped" not in ps and "noworker" not in ps:
+                        bad.append(x)
+        for c in pops:
+            n += 1
+            chk.instance(rule)
+        if bad:
+            chk.violation(rule, "ev.c", fn.name, "pop-without-reap", pops[0].loc,
+                          "%s pops a timeout entry and reaches `%s` (%s) on a path that neither joined / detached the entry's worker thread "
+                          "nor established that it has none: every expired interrupting deadline leaves an unjoined thread (and its stack) behind" % (
+                              fn.name, bad[0].text()[:30], bad[0].loc))
+        else:
+            chk.ok(rule, "%s: every popped entry that may carry a worker is reaped" % fn.name, n=len(pops))
+    chk.floor(rule, 3, n)
